@@ -40,6 +40,8 @@ const (
 	AddrP2TR
 	AddrP2PK
 	AddrGarbage
+	AddrP2PKUncompressed // hex of the 65-byte 0x04 serialisation
+	AddrP2PKHybrid       // hex of the 65-byte 0x06/0x07 serialisation
 )
 
 // BtcAddr returns the address string of the given kind over program (20 or 32 bytes; P2PK
@@ -64,6 +66,13 @@ func (h *H) BtcAddr(kind int, program []byte, forNet bool) string {
 		a, err = btcutil.NewAddressTaproot(program, net)
 	case AddrP2PK:
 		a, err = btcutil.NewAddressPubKey(h.TxKey(1), net)
+	case AddrP2PKUncompressed, AddrP2PKHybrid:
+		_, pub := ecdsaBtcec(1)
+		raw := pub.SerializeUncompressed()
+		if kind == AddrP2PKHybrid {
+			raw[0] = 0x06 | (raw[64] & 1)
+		}
+		a, err = btcutil.NewAddressPubKey(raw, net)
 	default:
 		return "this-is-not-a-bitcoin-address"
 	}
